@@ -7,7 +7,7 @@ from qce_circuit.addon_stim.circuit_operations import DetectorOperation, Logical
 from qce_circuit.structure import circuit_operations as co
 from mc import world, triage
 from mc.engine import Family, Res
-from mc.interp import build, count_events, make_op, rep_count
+from mc.interp import build, count_events, make_op, rep_count, bump_registry_counts, registry_counts
 from mc.props.c05 import AllClassSpace
 from mc.ref.schedule import canonical_state
 from mc.ref.stim_tr import translate_block, translate_leaf, expand
@@ -67,8 +67,8 @@ class AllClassNestedSpace(Space):
 
 
 class ExportFamily(Family):
-    def __init__(self, space, tag=''):
-        self.space = space
+    def __init__(self, space, tag='', bump=False):
+        self.space, self.bump = space, bump
         self.name = 'export/%s%d%s' % (space.name, space.max_len, tag)
         self.rule = ('all programs of space %s up to length %d exported as built and after apply_modifiers(); non-trivial = the export contains at least two instructions' % (space.name, space.max_len))
 
@@ -86,6 +86,11 @@ class ExportFamily(Family):
         with world.override(world.CFG_G):
             b = build(prog)
             c = b.circ
+            if self.bump and b.registries is not None:
+                # registry-provided counts are raised after the circuit was built: the export uses the counts in force now
+                for k in sorted(registry_counts(prog), reverse=True):
+                    b.registries.set_registry_at('n%d' % k, k + 1)
+                prog = bump_registry_counts(prog)
             got = judge(res, prog, c, 'as built')
             un = c.apply_modifiers()
             got2 = judge(res, prog, un, 'unrolled')
@@ -229,9 +234,11 @@ class LibraryFamily(Family):
 
 def families(tier):
     if tier == 'quick':
-        return [ExportFamily(AllClassSpace(2)), ExportFamily(AllClassNestedSpace()), ExportFamily(NestedSpace2(2)), ExportFamily(TwoLevelSpace(1)), AnnotationFamily(), LibraryFamily()]
+        return [ExportFamily(AllClassSpace(2)), ExportFamily(AllClassNestedSpace()), ExportFamily(NestedSpace2(2)), ExportFamily(TwoLevelSpace(1)),
+                ExportFamily(NestedSpace2(2, reps=(('reg', 2),), atoms=[('X', 0), ('M', 0), ('R', 1)]), '/count-set-after-build', bump=True), AnnotationFamily(), LibraryFamily()]
     return [ExportFamily(AllClassSpace(2)), ExportFamily(AllClassNestedSpace()), ExportFamily(AllClassSpace(3, ('Rx90', 'Rxm90', 'Hadamard', 'CPhase', 'Barrier', 'DispersiveMeasure', 'VirtualPark', 'DetectorOperation'))),
-            ExportFamily(NestedSpace2(2)), ExportFamily(TwoLevelSpace(2)), AnnotationFamily(), LibraryFamily()]
+            ExportFamily(NestedSpace2(2)), ExportFamily(TwoLevelSpace(2)),
+            ExportFamily(NestedSpace2(2, reps=(('reg', 2), ('reg', 3)), atoms=[('X', 0), ('M', 0), ('R', 1), ('Z', 0)]), '/count-set-after-build', bump=True), AnnotationFamily(), LibraryFamily()]
 
 
 def signature(f):
